@@ -758,6 +758,9 @@ func (cg *ConsumerGroup) run() {
 		// waiting to receive on the unbuffered error channel.
 		select {
 		case <-cg.done:
+			// the member ID is still valid after a RebalanceInProgress error,
+			// leave the group (this is a no-op if the ID was cleared above).
+			_ = cg.leaveGroup(memberID)
 			return
 		case cg.errs <- err:
 		}
@@ -766,6 +769,7 @@ func (cg *ConsumerGroup) run() {
 			select {
 			case <-cg.done:
 				// exit cleanly if the group is closed.
+				_ = cg.leaveGroup(memberID)
 				return
 			case <-backoff:
 			}
